@@ -23,12 +23,14 @@ META = {
         "the flag before any __start_thread; C09.7 every access to the pool counters and thread list outside __init__ "
         "holds the pool lock (two triaged exceptions frozen by construct); C09.8 the worker accounting is exact (imported from "
         "C10.1 / C10.7 / C10.7b): a thread is started only below max_threads, every worker exit decrements the thread counter "
-        "exactly once - otherwise a max_threads=1 pool can run two workers and tasks no longer start in submission order."),
+        "exactly once - otherwise a max_threads=1 pool can run two workers and tasks no longer start in submission order; "
+        "C09.9 (imported from C10.5) every decision to start or retire a worker is taken under the pool lock on inputs read "
+        "under that lock whose writers hold it - a worker retiring on a stale snapshot leaves an accepted task unexecuted."),
     "does_not_decide": "exactly-once and eventual execution over all interleavings, submission-order start beyond "
                        "FIFO-ness, idle-timeout behaviour (schedule-quantified).",
     "rules": {"C09.1": "provenance + post-dominance + who-may-put", "C09.2": "per-iteration event-count exploration of the worker CFG (exception edges included)",
               "C09.3": "provenance + event count + field-write scan", "C09.4": "constructor type", "C09.5": "ordering / dominance / lockset",
-              "C09.6": "dominance", "C09.7": "lockset of every field access (E5)", "C09.8": "imported C10.1, C10.7, C10.7b"},
+              "C09.6": "dominance", "C09.7": "lockset of every field access (E5)", "C09.8": "imported C10.1, C10.7, C10.7b", "C09.9": "imported C10.5 (E5 snapshot rule)"},
     "assumptions": ["queue.Queue is FIFO and thread-safe; threading.Event/RLock behave as documented"],
 }
 
@@ -339,5 +341,6 @@ def check(ck):
 
     # ---- C09.8 worker accounting (shared with C10.7 / C10.7b) ------------------------------------------------------------
     from rules import c10, common
-    common.import_rules(ck, c10, {"C10.7": "C09.8", "C10.7b": "C09.8", "C10.1": "C09.8"})
+    common.import_rules(ck, c10, {"C10.7": "C09.8", "C10.7b": "C09.8", "C10.1": "C09.8", "C10.5": "C09.9"})
     ck.floor("C09.8", 8)
+    ck.floor("C09.9", 8)
